@@ -309,6 +309,19 @@ theorem c19_rhp2_frame_roundtrip {A : AEAD} (hA : AEADOK A) {E : Env} (hE : EnvO
   simp only
   rw [C11.c11_roundtrip hE 0 s hwf v padding hc]
 
+/-- the padding rule: a frame is padded up to `minMessageSize` and never truncated — its total
+size is `max(4096, 8 + 12 + |payload| + 16)`; in particular for unsealed sizes 4081…4095
+(payloads of 4061…4075 bytes) the padding is 0 and the frame is 4097…4111 bytes, with the
+WHOLE payload sealed (`c19_rhp2_frame_roundtrip` holds for every size). -/
+theorem c19_rhp2_frame_size {A : AEAD} (hA : AEADOK A) (nonce payload : Bytes) (hn : nonce.length = nonceSize) :
+    (rhp2Frame A nonce payload (List.replicate (rhp2PadLen payload.length) 0)).length =
+      max Framing.rhp2_minMessageSize (8 + nonceSize + payload.length + tagSize) := by
+  simp only [rhp2Frame, List.length_append, u64le_length, hA.seal_len, hn, List.length_replicate, rhp2PadLen,
+    Framing.rhp2_minMessageSize, nonceSize, tagSize]
+  omega
+
+example : rhp2PadLen 4060 = 0 ∧ rhp2PadLen 4061 = 0 ∧ rhp2PadLen 4075 = 0 ∧ rhp2PadLen 4059 = 1 ∧ rhp2PadLen 100 = 3960 := by decide
+
 /-- **c19_rhp2_tamper_detected**: if a read delivers a message at all, the bytes on the wire
 were exactly a genuine frame of this session — so ANY modification of length, nonce,
 ciphertext or tag of a frame in transit makes the read fail. -/
